@@ -56,6 +56,8 @@ def gen_case(rng, tier, wrap=False):
     if rng.random() < 0.5:
         c['cut_day'] = rng.choice(all_days)
     if rng.random() < 0.3:
+        c['csv_symbols'] = rng.sample(sorted(assets), len(assets))
+    if rng.random() < 0.3:
         c['shared_dir'] = True
     if rng.random() < 0.4:
         c['handler_universe'] = rng.choice(['late_dynamic', 'none_dynamic', 'static_without', 'static_with'])
